@@ -193,3 +193,7 @@ reg('C19', 'ropeinv', 'rule_unchecked_sibling', ('dev', 'release'))   # the unch
 # ---- round 10
 reg('C04', 'offsets', 'rule_tagged_offset')       # a mapped segment starts on the output character its text starts on: the column correction of ReplaceSource
 reg('C11', 'offsets', 'rule_tagged_offset')       # segments in increasing generated position before the end of source(): a stale correction moves columns backwards / past the end
+reg('C06', 'ropeinv', 'rule_prefix_exhaust')      # the column of a cut chunk is advanced where the recorded content equals the text, however the text is divided into rope pieces
+reg('C17', 'panics', 'rule_content_unwrap', ('dev', 'release'))   # a source announced without content (no sourcesContent, no original source) must not panic
+reg('C14', 'caches', 'rule_fill_agree')           # map() of an unchanged value answers the same whichever call filled the cache
+reg('C20', 'eqhash', 'rule_hash_framed')          # trees that differ in text must not feed the hasher the identical call sequence
